@@ -6,6 +6,6 @@ CONSTANTS
   Durs = {1}
   RaPre = 3
   HpMaxDev = 2
-  Kinds = {"sa", "ra", "kick", "bl", "rd", "wr", "hp", "sv"}
+  Kinds = {"hp", "wr"}
 INVARIANTS SaUnaffected SaNoLeak SaIff SaMonotone RaSdpIff RaBound RdSound WrSound BlSound HpSound SvSound
 ACTION_CONSTRAINT EmitS
